@@ -251,7 +251,9 @@ func (ns *NameStrategy) Name(t *types.Type) string {
 	case types.Array:
 		name = ns.Join(ns.Prefix, []string{
 			"Array",
-			ns.removePrefixAndSuffix(fmt.Sprintf("%d", t.Len)),
+			// The length never carried the prefix and suffix, so there is
+			// nothing to remove from it.
+			fmt.Sprintf("%d", t.Len),
 			ns.removePrefixAndSuffix(ns.Name(t.Elem)),
 		}, ns.Suffix)
 	case types.Pointer:
